@@ -105,7 +105,7 @@ add("C07", "TestC07", "fault_enumeration",
 add("C08", "TestC08", "exploration",
     dict(cases=16000, shards=8, extra=[dict(test="TestC08Ladder", shards=8), dict(test="TestC08LargeOrder", shards=4), dict(test="TestC08ConcurrentBuilds", shards=1)]),
     dict(cases=400000, shards=16, timeout_s=3000, extra=[dict(test="TestC08Ladder", shards=16), dict(test="TestC08LargeOrder", shards=8), dict(test="TestC08ConcurrentBuilds", shards=1)]),
-    "a 140000-key list with ONE violation at every power-of-two index +-2, multiples of 65536 and 10000, and the ends; valid lists (K1..K6/Krand up to 10^4 keys) with 1..3 injected order violations at drawn indexes (equal neighbours, swapped neighbours, key followed by its own prefix, 0x7f/0x80 and 0xff/0x00 pairs in signed order), valid controls, and key sets whose single-branch run has a drawn length around the 16-bit step boundary; plus the enumerated step ladder L in {0,1,2,255..257,32767,32768,65534..65537,70000,131071,131072,200000}+-2 x 4 placements x 4 modes x dedup x values; non-trivial = violation not at the first/last index, or L within +-2 of a power-of-two boundary",
+    "a 140000-key list with ONE violation at every power-of-two index +-2, multiples of 65536 and 10000, and the ends; valid lists (K1..K6/Krand up to 10^4 keys) with 1..3 injected order violations at drawn indexes (equal neighbours, swapped neighbours, key followed by its own prefix, 0x7f/0x80 and 0xff/0x00 pairs in signed order), valid controls, and key sets whose single-branch run has a drawn length around the 16-bit step boundary; plus the enumerated step ladder L in {0,1,2,255..257,32767,32768,65534..65537,70000,131071,131072,200000}+-2 x 4 placements x 4 modes x dedup x values; plus rounds of 8 goroutines building different tries at the same time (12 quick / 120 thorough), each trie checked on its own keys; non-trivial = violation not at the first/last index, or L within +-2 of a power-of-two boundary",
     "Generated-input search: independent strict-order predicate => (error with cause ErrKeyOutOfOrder and nil trie) for every invalid list, acceptance for every valid list within the documented 16 KiB key length; whatever is accepted must find every key it was built from with its value (Get and RangeGet).",
     "Trusted: bytes.Compare as the order predicate; reference model.",
     RAPID + " + enumerated step-length ladder", "DESIGN.md §4 C08")
@@ -118,7 +118,7 @@ add("C20", "TestC20", "exploration",
 
 add("C12", "TestC12", "exploration",
     dict(cases=24000, shards=8, extra=[dict(test="TestC12Regular", shards=4), dict(test="TestC12Million", shards=1), dict(test="TestC12ConcurrentBuilds", shards=1)]), dict(cases=600000, shards=16, timeout_s=3000, extra=[dict(test="TestC12Regular", shards=8, timeout_s=3000), dict(test="TestC12Million", shards=1, timeout_s=3000), dict(test="TestC12ConcurrentBuilds", shards=1, timeout_s=3000)]),
-    "sorted record sets (keys K1..K7/Krand with arbitrary bytes, distinct payloads), either one strictly increasing offset per key (Get) or block offsets with block size 2..64 and drawn gaps (RangeGet); reader = map offset -> block that returns a record only when the key is in that block; queries = all keys and Q(keys); non-trivial = the reader had to reject at least one lookup (the underlying trie returned an offset for an absent key)",
+    "sorted record sets (keys K1..K7/Krand with arbitrary bytes, distinct payloads), either one strictly increasing offset per key (Get) or block offsets with block size 2..64 and drawn gaps (RangeGet); reader = map offset -> block that returns a record only when the key is in that block; queries = all keys and Q(keys); plus rounds of 6 goroutines building record indexes at the same time (10 quick / 100 thorough); offsets up to 2^62 with gaps up to 2^39; non-trivial = the reader had to reject at least one lookup (the underlying trie returned an offset for an absent key)",
     "Generated-input search against an exact map model: every indexed key returns its own record, every other string is not found.",
     "Trusted: the verifying reader written in the harness.", RAPID.replace("sorted-map", "map"), "DESIGN.md §4 C12")
 
@@ -133,7 +133,7 @@ add("C15", "TestC15", "exploration",
 add("C16", "TestC16", "exploration",
     dict(cases=40000, shards=8, extra=[dict(test="TestC16Exhaustive", shards=8), dict(test="TestC16ConcurrentInits", shards=1)]),
     dict(cases=400000, shards=16, timeout_s=3000, extra=[dict(test="TestC16Exhaustive", shards=16, timeout_s=3000), dict(test="TestC16ConcurrentInits", shards=1, timeout_s=3000)]),
-    "exhaustive: every index set of <= 3 elements within 2-3 bitmap words and every 2-element set within 5 words, every index of the span probed; rapid: ascending index sets in [0, 2^20) (empty, single, dense runs, sparse, clusters separated by empty 64-bit words, word-boundary indexes) x element kinds U16/U32/U64/I16/I32/I64 (edge and random values) and a fixed-size struct via array.New; probes = every index of the span when span <= 4096, else listed +-1, word boundaries and drawn; 1/3 invalid inputs (equal/descending neighbours at a drawn position, length off by 1..5); non-trivial = an empty bitmap word between populated words (or an invalid input)",
+    "exhaustive: every index set of <= 3 elements within 2-3 bitmap words and every 2-element set within 5 words, every index of the span probed; rapid: ascending index sets in [0, 2^20) (empty, single, dense runs, sparse, clusters separated by empty 64-bit words, word-boundary indexes) x element kinds U16/U32/U64/I16/I32/I64 (edge and random values) and a fixed-size struct via array.New; probes = every index of the span when span <= 4096, else listed +-1, word boundaries and drawn; 1/3 invalid inputs (equal/descending neighbours at a drawn position, length off by 1..5); plus rounds of 8 goroutines constructing arrays of different kinds at the same time (10 quick / 100 thorough); non-trivial = an empty bitmap word between populated words (or an invalid input)",
     "Generated-input search against a map[int32]T model: typed Get, raw GetBytes and generic Get agree with the model at every probe within the bitmap span, also after proto.Marshal -> proto.Unmarshal into the typed type and into array.NewEmpty(T); invalid input is rejected with the dedicated error, builds nothing, and a rejected Init leaves an existing array unchanged.",
     "Trusted: the map model. Probes beyond the bitmap span are not claimed (accessors index out of range there by design).",
     RAPID.replace("sorted-map", "map[int32]T"), "DESIGN.md §4 C16")
